@@ -412,7 +412,20 @@ func (p *prov) load(addr ssa.Value, d int) []string {
 	case *ssa.Global:
 		return []string{"G(" + objName(p.c, a.Object()) + ")"}
 	}
-	return suffixAll(p.origins(addr, d+1), "")
+	// what a pointer points to: on the way of a load through it, the pointer was not the nil one of its possible values
+	base := p.origins(addr, d+1)
+	if len(base) > 1 {
+		var nn []string
+		for _, b := range base {
+			if b != "K(nil)" {
+				nn = append(nn, b)
+			}
+		}
+		if len(nn) > 0 {
+			base = nn
+		}
+	}
+	return suffixAll(base, "")
 }
 
 // loadFrom: everything stored to the local root at the given field path (flow-insensitive),
@@ -621,6 +634,9 @@ func (p *prov) call(x *ssa.Call, d int) []string {
 func fieldsOf(in []string, name string) []string {
 	var out []string
 	for _, s := range in {
+		if s == "K(nil)" && len(in) > 1 {
+			continue // a field is read through the pointer: on that way it was not the nil one of its possible values
+		}
 		s = strings.TrimPrefix(s, "&") // a literal handed on by address: same fields
 		if strings.HasPrefix(s, "lit{") && strings.HasSuffix(s, "}") {
 			body := s[4 : len(s)-1]
